@@ -6,7 +6,7 @@
                         new outcomes are named like old outcomes, the new conditions like old conditions
   B. `exchangeOutcomes_spec`, `interveneWith_spec`  the exchange only adds the subscript to (some) outcome keys
   C. `rule2_name_free`  `cf_rule_2_of_do_calculus_applies` never accepts a condition that has the variable name of an outcome
-                        (not self-intervened keys over a non-root variable): copies of one variable are adjacent (`cg_dop`) and
+                        (not self-intervened keys): copies of one variable are adjacent (`cg_dop`) and
                         adjacent nodes are not d-separated (`MG.dSeparated_ne_true_of_adjacent`)
 -/
 import Y0.Lemmas.CfIdcDop
@@ -278,13 +278,13 @@ theorem firstExchangeable_rule2 (cf : MG Var) (os : List Var) : ∀ (cs : List V
         exact firstExchangeable_rule2 cf os xs c h
 
 /-- **rule 2 of the do-calculus, as tested on the counterfactual graph, never applies to a condition that is a copy of an
-outcome variable** (keys not self-intervened, the variable has a parent in `G`) -/
+outcome variable** (keys not self-intervened) -/
 theorem rule2_name_free {ordf : List World → List World} (hord : PermOrder ordf) {G : MG Name} (hG : G.WF)
     (hdl : ∀ e ∈ G.di, e.1 ≠ e.2) (hbl : ∀ e ∈ G.bi, e.1 ≠ e.2) {ev : Event} (hev : EvOK ev)
     (hk : ∀ k ∈ ev.keys, KeyOK G k) {g : MG Var} {nev : Event}
     (hcg : makeCounterfactualGraph ordf G ev = .ok (g, some nev)) (os : List Var) (c : Var)
     (hr : rule2Applies g os c = .ok true) (o : Var) (ho : o ∈ os) (hon : o ∈ nev.keys) (hcn : c ∈ nev.keys)
-    (hno : isNotSelfIntervened o = true) (hnc : isNotSelfIntervened c = true) (hroot : G.parents o.name ≠ []) :
+    (hno : isNotSelfIntervened o = true) (hnc : isNotSelfIntervened c = true) :
     o.name ≠ c.name := by
   intro hname
   unfold rule2Applies at hr
@@ -300,7 +300,7 @@ theorem rule2_name_free {ordf : List World → List World} (hord : PermOrder ord
     · exact Or.inl hoc
     · right
       rw [MG.biEdge_removeOutEdges]
-      exact cg_dop hord hG hdl hbl hev hk hcg o hon c hcn hno hnc hoc hname hroot
+      exact cg_dop hord hG hdl hbl hev hk hcg o hon c hcn hno hnc hoc hname
 
 end Cf
 end Y0
